@@ -48,7 +48,7 @@ IsStep == cur.op # "Reset"
 IsApp(e) == e.op \in {"AppWrite", "AppWrite2", "AppGrow", "AppGrowWrite", "AppShrink", "AppDelete", "AppReclaim", "AppVacuum", "AppDDL", "AppBegin", "AppSpill",
                       "AppCommit", "AppRollback", "AppCheckpoint", "AppHoldWrite", "AppJoin", "AppClose", "AppOpen", "ReaderOpen", "ReaderClose", "ParApp"}
 IsLs(e)  == e.op \in {"ParStep", "ParEnd", "LsOpen", "LsSync", "LsReplicaSync", "LsSyncAndWait", "LsCheckpoint", "LsClose", "LsReset",
-                      "Snapshot", "Compact", "CkStart", "CkStep"}
+                      "Snapshot", "Compact", "CkStart", "CkStep", "CkCancel"}
 \* a litestream checkpoint, either as one call (LsCheckpoint) or step by step (CkStart, CkStep: res = "at" while parked at a hook)
 IsChk(e) == e.op \in {"LsCheckpoint", "CkStart", "CkStep"}
 ChkFailed(e) == IsChk(e) /\ e.res \notin {"ok", "skip", "at"}
